@@ -12,11 +12,13 @@ package x25519
 
 // ScalarMult is golang.org/x/crypto's X25519 (assumed = RFC 7748), writing only dst.
 //@ func ScalarMult(dst, in, base)
+//@   ct
 //@   modifies *dst
 //@   ensures le(*dst) == x25519(le(old(*in)), le(old(*base)))
 
 // Base-point path: dst = u([clamp(in)]B), computed on the Edwards curve
 //@ func ScalarBaseMult(dst, in)
+//@   ct
 //@   alias dst==in
 //@   modifies *dst
 //@   ensures le(*dst) < P
@@ -27,6 +29,7 @@ package x25519
 //@   modifies nothing
 
 //@ func EdPrivateKeyToX25519(privateKey)
+//@   ct
 //@   requires len(privateKey) >= 32
 //@   modifies nothing
 //@   ensures len(result) == 32 && fresh(result)
@@ -36,7 +39,7 @@ package x25519
 //@   requires mag(*y, CANON)
 //@   modifies *outX
 //@   ensures mag(*outX, RED)
-//@   ensures cong(fval(*outX), (1 + fval(*y)) * pow(1 - fval(*y) + 2 * P, P - 2), P)
+//@   ensures cong(fval(*outX), (1 + fval(*y)) * pow(1 - fval(*y), P - 2), P)
 
 //@ func EdPublicKeyToX25519(publicKey)
 //@   requires len(publicKey) >= 32
@@ -44,7 +47,7 @@ package x25519
 //@   ensures result1 == decodable(bytesOf(publicKey[0:32]))
 //@   ensures !result1 ==> result0 == nil
 //@   ensures result1 ==> (len(result0) == 32 && fresh(result0) && le(result0[0:32]) < P)
-//@   ensures result1 ==> le(result0[0:32]) == ((1 + le(publicKey[0:32]) % (1<<255)) * pow(1 - le(publicKey[0:32]) % (1<<255) + 2 * P, P - 2)) % P
+//@   ensures result1 ==> le(result0[0:32]) == ((1 + le(publicKey[0:32]) % (1<<255)) * pow(1 - le(publicKey[0:32]) % (1<<255), P - 2)) % P
 
 // X25519(scalar, point): error exactly for a wrong length or (generic path) an all-zero result.
 // When point is the exported Basepoint slice the Edwards fast path is taken.
